@@ -24,6 +24,8 @@ pub fn handle(op: &str, a: &[&str]) -> Option<Resp> {
                     Ok(r2) => {
                         if r2.to_string() != s {
                             fail = Some("from_str(s).to_string() != s".to_string());
+                        } else if r2.verif_dump() != r.verif_dump() {
+                            fail = Some("from_str(s) tree != parse_relaxed(s,false) tree".to_string());
                         }
                         "ok"
                     }
@@ -32,9 +34,380 @@ pub fn handle(op: &str, a: &[&str]) -> Option<Resp> {
             } else {
                 "-"
             };
-            Some(Resp::with(format!("{} {} {}", es(&printed), errs.len(), strict), fail))
+            let dump = r.verif_dump();
+            if fail.is_none() && dump.matches("(ERROR").count() != errs.len() {
+                fail = Some("number of errors != number of ERROR nodes".to_string());
+            }
+            Some(Resp::with(format!("{} {} {} {}", es(&printed), errs.len(), strict, dump), fail))
+        }
+        ("rel.entry", [t]) => {
+            let s = ds(t)?;
+            match Entry::from_str(&s) {
+                Ok(e) => {
+                    let printed = e.to_string();
+                    let mut fail = None;
+                    if !s.contains(&printed) {
+                        fail = Some("Entry::from_str(s).to_string() is not a substring of s".to_string());
+                    } else if Relations::from_str(&s).is_err() {
+                        fail = Some("Entry::from_str(s) is Ok but Relations::from_str(s) is Err".to_string());
+                    }
+                    Some(Resp::with(format!("ok {} {}", es(&printed), e.verif_dump()), fail))
+                }
+                Err(_) => Some(Resp::ok("err".to_string())),
+            }
+        }
+        ("rel.relation", [t]) => {
+            let s = ds(t)?;
+            match Relation::from_str(&s) {
+                Ok(r) => {
+                    let printed = r.to_string();
+                    let mut fail = None;
+                    if !s.contains(&printed) {
+                        fail = Some("Relation::from_str(s).to_string() is not a substring of s".to_string());
+                    } else {
+                        match Entry::from_str(&s) {
+                            Ok(e) => {
+                                if !e.to_string().contains(&printed) {
+                                    fail = Some("Relation::from_str(s) does not print a substring of Entry::from_str(s)".to_string());
+                                }
+                            }
+                            Err(_) => {
+                                fail = Some("Relation::from_str(s) is Ok but Entry::from_str(s) is Err".to_string());
+                            }
+                        }
+                    }
+                    Some(Resp::with(format!("ok {} {}", es(&printed), r.verif_dump()), fail))
+                }
+                Err(_) => Some(Resp::ok("err".to_string())),
+            }
+        }
+        ("rel.view", [allow, t]) => {
+            let s = ds(t)?;
+            let (r, _errs) = Relations::parse_relaxed(&s, *allow == "1");
+            Some(Resp::ok(view_root(&r)))
+        }
+        ("rel.version", [t]) => {
+            let s = ds(t)?;
+            match debversion::Version::from_str(&s) {
+                Ok(v) => Some(Resp::ok(format!("ok {}", enc_version(&v)))),
+                Err(_) => Some(Resp::ok("err".to_string())),
+            }
         }
         _ => None,
+    }
+}
+
+fn enc_version(v: &debversion::Version) -> String {
+    format!(
+        "{}:{}:{}:{}",
+        v.epoch.map(|e| e.to_string()).unwrap_or_else(|| "none".to_string()),
+        es(&v.upstream_version),
+        eopt(v.debian_revision.as_deref()),
+        es(&v.to_string())
+    )
+}
+
+fn guarded<T>(f: impl FnOnce() -> T) -> Option<T> {
+    std::panic::catch_unwind(std::panic::AssertUnwindSafe(f)).ok()
+}
+
+/// canonical view of one relation through the read accessors; an accessor that panics prints PANIC
+pub fn view_rel(r: &Relation) -> String {
+    use debian_control::relations::BuildProfile;
+    let nm = guarded(|| r.name()).map(|n| es(&n)).unwrap_or_else(|| "PANIC".to_string());
+    let aq = guarded(|| r.archqual()).map(|a| eopt(a.as_deref())).unwrap_or_else(|| "PANIC".to_string());
+    let ver = match guarded(|| r.version()) {
+        None => "PANIC".to_string(),
+        Some(None) => "none".to_string(),
+        Some(Some((vc, v))) => format!("{}:{}", vc, enc_version(&v)),
+    };
+    let arch = match guarded(|| r.architectures().map(|it| it.collect::<Vec<_>>())) {
+        None => "PANIC".to_string(),
+        Some(None) => "none".to_string(),
+        Some(Some(l)) => format!("[{}]", elist(&l)),
+    };
+    let prof = match guarded(|| r.profiles().collect::<Vec<_>>()) {
+        None => "PANIC".to_string(),
+        Some(groups) => groups
+            .iter()
+            .map(|g| {
+                format!(
+                    "<{}>",
+                    g.iter()
+                        .map(|p| match p {
+                            BuildProfile::Enabled(s) => format!("E{}", es(s)),
+                            BuildProfile::Disabled(s) => format!("D{}", es(s)),
+                        })
+                        .collect::<Vec<_>>()
+                        .join(",")
+                )
+            })
+            .collect::<Vec<_>>()
+            .join("/"),
+    };
+    format!("name={};aq={};ver={};arch={};prof={}", nm, aq, ver, arch, prof)
+}
+
+pub fn view_root(r: &Relations) -> String {
+    let subst: Vec<String> = r.substvars().collect();
+    let entries: Vec<Entry> = r.entries().collect();
+    let mut s = format!("subst=[{}] entries={}", elist(&subst), entries.len());
+    for e in entries {
+        s.push_str(" {");
+        s.push_str(&e.relations().map(|r| view_rel(&r)).collect::<Vec<_>>().join("|"));
+        s.push('}');
+    }
+    s
+}
+
+/// one representative per lexer arm (14 punctuation arms, newline), three whitespace characters,
+/// three identifier characters, two "anything else" characters (ASCII and multi-byte)
+pub const ALPHABET_FULL: [&str; 23] = [
+    "a", "1", "-", ":", "|", ",", "(", ")", "[", "]", "!", "<", ">", "=", "$", "{", "}", " ", "\t", "\r",
+    "\n", "@", "é",
+];
+/// merged classes: one identifier character, one whitespace character, one error character
+pub const ALPHABET_MERGED: [&str; 18] = [
+    "a", ":", "|", ",", "(", ")", "[", "]", "!", "<", ">", "=", "$", "{", "}", " ", "\n", "é",
+];
+/// token pool of the token-level enumeration: one text per token kind (two for IDENT-like kinds
+/// whose length matters to nothing, so one), rendered by concatenation. Adjacent IDENT / WHITESPACE
+/// tokens merge in the lexer, which is intended (longer tokens).
+pub const TOKENS: [&str; 18] = [
+    "ab", ":", "|", ",", "(", ")", "[", "]", "!", "<", ">", "=", "$", "{", "}", " \t", "\n", "@",
+];
+/// contexts that put the parser inside each nested construct before the enumerated tail starts
+pub const PREFIXES: [&str; 22] = [
+    "a ",
+    "a:",
+    "a: b",
+    "a (",
+    "a (>",
+    "a (>= ",
+    "a (>= 1",
+    "a (>= 1)",
+    "a [",
+    "a [!b",
+    "a [b] ",
+    "a <",
+    "a <!",
+    "a <!b",
+    "a <b> ",
+    "a <b> <",
+    "a |",
+    "a | b",
+    "a,",
+    "${",
+    "${a:",
+    "a:any (= 1) [c] <d>",
+];
+
+fn with_dollar(s: &str) -> bool {
+    s.contains('$')
+}
+
+/// a random, mostly well-formed relationship field
+pub fn random_field(rng: &mut Rng) -> String {
+    let names = ["libc6", "a", "python3-foo", "g++", "x.y~1", "0ad"];
+    let archs = ["amd64", "i386", "any", "linux-any", "native"];
+    let vers = ["1", "2.3-4", "1:2.0~rc1+b2", "0"];
+    let ops = [">=", "<=", "=", ">>", "<<", "<", ">", ""];
+    let profs = ["nocheck", "cross", "stage1", "pkg.foo.bar"];
+    let sp = |rng: &mut Rng| -> &'static str { *rng.pick(&["", "", " ", " ", "  ", "\n ", "\t", "\r\n "]) };
+    let mut s = String::new();
+    if rng.chance(15) {
+        s.push_str(sp(rng));
+    }
+    let ne = 1 + rng.below(4);
+    for e in 0..ne {
+        if e > 0 {
+            s.push(',');
+            s.push_str(sp(rng));
+        }
+        if rng.chance(15) {
+            s.push_str(*rng.pick(&["${misc:Depends}", "${shlibs:Depends}", "${a}", "${}"]));
+            continue;
+        }
+        if rng.chance(5) {
+            continue; // empty entry
+        }
+        let nr = 1 + rng.below(3);
+        for r in 0..nr {
+            if r > 0 {
+                s.push_str(sp(rng));
+                s.push('|');
+                s.push_str(sp(rng));
+            }
+            s.push_str(*rng.pick(&names));
+            if rng.chance(25) {
+                s.push_str(sp(rng));
+                s.push(':');
+                s.push_str(sp(rng));
+                s.push_str(*rng.pick(&archs));
+            }
+            if rng.chance(50) {
+                s.push_str(sp(rng));
+                s.push('(');
+                s.push_str(sp(rng));
+                s.push_str(*rng.pick(&ops));
+                s.push_str(sp(rng));
+                s.push_str(*rng.pick(&vers));
+                s.push_str(sp(rng));
+                s.push(')');
+            }
+            if rng.chance(30) {
+                s.push_str(sp(rng));
+                s.push('[');
+                for i in 0..1 + rng.below(3) {
+                    if i > 0 {
+                        s.push(' ');
+                    }
+                    if rng.chance(40) {
+                        s.push('!');
+                    }
+                    s.push_str(*rng.pick(&archs));
+                }
+                s.push(']');
+            }
+            for _ in 0..rng.below(3) {
+                if rng.chance(70) {
+                    s.push_str(sp(rng));
+                    s.push('<');
+                    for i in 0..1 + rng.below(3) {
+                        if i > 0 {
+                            s.push_str(sp(rng));
+                            if rng.chance(80) {
+                                s.push(' ');
+                            }
+                        }
+                        if rng.chance(50) {
+                            s.push('!');
+                            if rng.chance(10) {
+                                s.push(' ');
+                            }
+                        }
+                        s.push_str(*rng.pick(&profs));
+                    }
+                    s.push('>');
+                }
+            }
+        }
+    }
+    if rng.chance(20) {
+        s.push_str(*rng.pick(&[",", ", ", "\n", " ,\n"]));
+    }
+    s
+}
+
+/// reduced token pool for the longest tails
+pub const TOKENS_SMALL: [&str; 10] = ["ab", ":", "|", ",", "(", "[", "<", ">", "!", " "];
+
+fn exact_len(alphabet: &[&str], n: usize) -> Vec<String> {
+    strings_upto(alphabet, n).into_iter().filter(|s| s.chars().count() == n).collect()
+}
+
+/// the texts of the C09 exploration
+pub fn gen_c09_texts(tier: &str, seed: u64) -> Vec<String> {
+    let thorough = tier == "thorough";
+    let mut v: Vec<String> = vec![];
+    // 1. exhaustive character level: every string over the per-class alphabet
+    if thorough {
+        v.extend(strings_upto(&ALPHABET_FULL, 4));
+        v.extend(exact_len(&ALPHABET_MERGED, 5));
+    } else {
+        v.extend(strings_upto(&ALPHABET_FULL, 3));
+        v.extend(exact_len(&ALPHABET_MERGED, 4));
+        // length 4 over the characters the merged alphabet drops, with their neighbours
+        let extra = ["a", "1", "-", " ", "\t", "\r", "\n", "@", "é", ","];
+        v.extend(exact_len(&extra, 4));
+    }
+    // 2. token level: a context prefix that puts the parser inside a nested construct, followed
+    //    by every tail of <= 3 tokens (thorough: <= 4 over the reduced pool as well)
+    let tails = strings_upto(&TOKENS, if thorough { 3 } else { 2 });
+    let tails_small = exact_len(&TOKENS_SMALL, if thorough { 4 } else { 3 });
+    for p in PREFIXES.iter() {
+        for t in tails.iter().chain(tails_small.iter()) {
+            v.push(format!("{}{}", p, t));
+        }
+    }
+    // sequences of 5 (thorough: 6) tokens over the sub-pools that drive one construct each
+    let pools: [&[&str]; 6] = [
+        &["a", " ", "(", ")", ">", "="], // version / constraint
+        &["a", " ", "[", "]", "!", ","], // architectures
+        &["a", " ", "<", ">", "!", "|"], // profiles
+        &["a", " ", ":", "|", ",", "@"], // archqual, separators, junk
+        &["$", "{", "}", "a", ":", ","], // substvars
+        &["a", ",", "|", "(", "[", "<"], // unterminated blocks
+    ];
+    for pool in pools.iter() {
+        v.extend(exact_len(pool, 5));
+        if thorough {
+            v.extend(exact_len(pool, 6));
+        }
+    }
+    // 3. seeded random well-formed fields, truncated at every position, plus one mutation each
+    let mut rng = Rng::new(seed);
+    let n = if thorough { 2000 } else { 300 };
+    for _ in 0..n {
+        let f = random_field(&mut rng);
+        let idx: Vec<usize> = f.char_indices().map(|(i, _)| i).collect();
+        for i in idx {
+            v.push(f[..i].to_string());
+        }
+        v.push(f.clone());
+        if !f.is_empty() {
+            let cs: Vec<char> = f.chars().collect();
+            let i = rng.below(cs.len());
+            let c = rng.pick(&ALPHABET_FULL).chars().next().unwrap();
+            let mut m = cs.clone();
+            if rng.chance(50) {
+                m[i] = c;
+            } else {
+                m.insert(i, c);
+            }
+            v.push(m.into_iter().collect());
+        }
+    }
+    v.sort();
+    v.dedup();
+    v
+}
+
+pub fn generate_c09(tier: &str, seed: u64, out: &mut Out) {
+    let texts = gen_c09_texts(tier, seed);
+    for (i, t) in texts.iter().enumerate() {
+        out.req("rel.read", &["0".to_string(), es(t)]);
+        // `allow_substvar` is only consulted when a `$` is met (relations.rs:308): every text
+        // with a `$` is read under both values, the others under allow=1 for a 1-in-16 sample
+        // (same tree expected) and all of them up to length 3
+        if with_dollar(t) || i % 16 == 0 || t.chars().count() <= 3 {
+            out.req("rel.read", &["1".to_string(), es(t)]);
+        }
+    }
+    // single-entry / single-relation readers: they only accept error-free texts, so take the
+    // texts free of the characters that always produce an error (1 in 3 of them, all the short
+    // ones) plus a thin sample of the rest
+    for (i, t) in texts.iter().enumerate() {
+        let plausible = !t.contains(['$', '{', '}', '@', 'é', '=', ')', ']']);
+        if t.chars().count() <= 3 || (plausible && i % 3 == 0) || i % 40 == 0 {
+            out.req("rel.entry", &[es(t)]);
+            out.req("rel.relation", &[es(t)]);
+        }
+    }
+}
+
+/// accessor views over the C09 texts, and `debversion::Version::from_str` over its own alphabet
+/// (groundwork for C10; run with `harness gen C10pre <tier> <seed>`)
+pub fn generate_c10pre(tier: &str, seed: u64, out: &mut Out) {
+    for t in gen_c09_texts(tier, seed) {
+        out.req("rel.view", &[if with_dollar(&t) { "1" } else { "0" }.to_string(), es(&t)]);
+    }
+    let valpha = ["1", "0", "a", ":", "-", ".", "+", "~", "_", "é", "٣"];
+    for t in strings_upto(&valpha, if tier == "thorough" { 6 } else { 5 }) {
+        out.req("rel.version", &[es(&t)]);
+    }
+    for t in ["4294967295:1", "4294967296:1", "00000000001:1", "99999999999999999999:1", "1:-", "1:-1", "1:a-", "a--b", "-a-b"] {
+        out.req("rel.version", &[es(t)]);
     }
 }
 
